@@ -114,8 +114,20 @@ JudgeTable(t, k) ==
              PairsDistinct(k.obs.table) /\ BagP(k.obs.table) = want, [exp |-> want, obs |-> k.obs.table]),
         ChkD(t, "C04:class-and-cdecay-routes-agree", k.obs.table = k.obs.dd, [table |-> k.obs.table, dd |-> k.obs.dd]) >>)
 
+\* the parse-tree layer (the visitor CDecay uses), applied once and twice to one tree
+JudgeTree(t, k) ==
+    LET b == BagP(k.fs) want == ConjBag(b, FALSE) wm == Conj(k.mother, FALSE) IN AllOf(<<
+        ChkD(t, "C04:tree-visitor-conjugates-mother-and-every-daughter",
+             PairsDistinct(k.obs.once) /\ BagP(k.obs.once) = want /\ k.obs.mother_once = wm,
+             [exp |-> want, obs |-> k.obs.once, mother |-> k.obs.mother_once]),
+        ChkD(t, "C04:tree-visitor-applied-twice-returns-the-original",
+             (IsWrapped(wm) \/ \E x \in DOMAIN want : IsWrapped(x))
+                 \/ (PairsDistinct(k.obs.twice) /\ BagP(k.obs.twice) = b /\ k.obs.mother_twice = k.mother),
+             [exp |-> b, obs |-> k.obs.twice, mother |-> k.obs.mother_twice]) >>)
+
 Judge(t, k) ==
     CASE k.kind = "calls" -> JudgeCalls(t, k)
+      [] k.kind = "tree" -> JudgeTree(t, k)
       [] k.kind = "fs" -> JudgeFS(t, k)
       [] k.kind = "mode" -> JudgeMode(t, k)
       [] k.kind = "table" -> JudgeTable(t, k)
